@@ -101,11 +101,20 @@ func (c *scriptConn) Write(p []byte) (int, error) {
 		<-g.release
 	}
 	c.mu.Lock()
+	defer c.mu.Unlock()
+	if c.closed {
+		// closed (by another goroutine, possibly while this write was waiting): nothing reaches the peer
+		return 0, errors.New("use of closed network connection (scripted)")
+	}
 	c.written = append(c.written, cp)
-	c.mu.Unlock()
 	return len(p), nil
 }
-func (c *scriptConn) Close() error                       { c.closed = true; return nil }
+func (c *scriptConn) Close() error {
+	c.mu.Lock()
+	c.closed = true
+	c.mu.Unlock()
+	return nil
+}
 func (c *scriptConn) LocalAddr() net.Addr                { return scriptAddr("local") }
 func (c *scriptConn) RemoteAddr() net.Addr               { return scriptAddr(c.addr) }
 func (c *scriptConn) SetDeadline(t time.Time) error {
